@@ -22,6 +22,8 @@ NP_KERNELS = [
     dict(name="SG_int_to_bit", file=T, cls="SamplingGrid", func="int_to_bit", params=[("int_array", "Vec"), ("powers", "OptVec"), ("num_bits", "OptNat")], ret="Mat",
          # the width derived from the batch maximum (float log2) is a function parameter; which expression it is, is checked
          opaque_defaults={"num_bits": ("int(np.ceil(np.log2(np.max(int_array) + 1)))", "widthOf int_array")}, fn_params=["(widthOf : List Int → Nat)"]),
+    # accuracy_score (module-level njit function of utils/_metrics.py, C19): equality mask, its integer cast, the mean
+    dict(name="Metrics_accuracy_score", file="utils/_metrics.py", cls=None, func="accuracy_score", params=[("y_true", "Vec"), ("y_predict", "Vec")], ret="Q1"),
     dict(name="SG_decode", file=T, cls="SamplingGrid", func="_decode", params=[("bit_array_i", "Mat")], self_attrs=[("_powers", "Vec")], ret="Vec",
          calls={"bit_to_int": ("SG_bit_to_int", ["Mat", "OptVec"], "Vec")}),
     dict(name="GC_decode", file=T, cls="GrayCode", func="_decode", params=[("gray_array_i", "Mat")], self_attrs=[("_powers", "Vec")], ret="Vec",
@@ -40,7 +42,7 @@ NPQ_KERNELS = [
     dict(name="Bench_Rastrigin_f", file=B, cls="Rastrigin", func="f", cos2pi="cs"),
 ]
 
-LEAN_TY = {"Mat": "Np.Mat", "Vec": "List Int", "OptVec": "Option (List Int)", "Nat": "Nat", "OptNat": "Option Nat"}
+LEAN_TY = {"Q1": "Rat", "Mat": "Np.Mat", "Vec": "List Int", "OptVec": "Option (List Int)", "Nat": "Nat", "OptNat": "Option Nat"}
 
 
 class NotRecognised(Exception):
@@ -48,6 +50,11 @@ class NotRecognised(Exception):
 
 
 def find_method(tree, cls, func):
+    if cls is None:
+        for node in tree.body:
+            if isinstance(node, ast.FunctionDef) and node.name == func:
+                return node
+        raise NotRecognised(f"{func} not found")
     for node in tree.body:
         if isinstance(node, ast.ClassDef) and node.name == cls:
             for st in node.body:
@@ -160,8 +167,19 @@ class Tr:
                 if is_const(c, 0):
                     return x, "Col0"                                     # M[:, 0]  (only as the receiver of .reshape(-1, 1))
             raise NotRecognised("subscript " + ast.unparse(e))
+        # a == b for two 1-D integer arrays
+        if isinstance(e, ast.Compare) and len(e.ops) == 1 and isinstance(e.ops[0], ast.Eq):
+            (a, ta), (b, tb) = self.E(e.left), self.E(e.comparators[0])
+            if (ta, tb) != ("Vec", "Vec"):
+                raise NotRecognised("== operand kinds")
+            return self.bind(f"Np.eqMask {a} {b}", "Vec", True), "Vec"
         if isinstance(e, ast.Call):
             f = e.func
+            if is_np(f, "mean") and len(e.args) == 1 and not e.keywords:
+                x, ty = self.E(e.args[0])
+                if ty != "Vec":
+                    raise NotRecognised("mean of a non-vector")
+                return self.bind(f"Np.meanQ {x}", "Q1", True), "Q1"
             if is_np(f, "flip") and len(e.args) == 1 and not e.keywords:
                 x, ty = self.E(e.args[0])
                 if ty != "Vec":
@@ -273,6 +291,7 @@ class Tr:
     def render(self):
         cfg = self.cfg
         args = [a.arg for a in self.fn.args.args if a.arg != "self"]
+        cls_txt = (cfg["cls"] + ".") if cfg["cls"] else ""
         if args != [p for p, _ in cfg["params"]]:
             raise NotRecognised(f"parameters {args}")
         for p, ty in cfg["params"]:
@@ -288,7 +307,7 @@ class Tr:
         self.lines.append(f"  return {x}")
         imports = ["import TFV.Model.Np"] + [f"import TFV.Generated.Src.{v[0]}" for v in cfg.get("calls", {}).values()]
         params = cfg.get("fn_params", []) + [f"(self{a} : {LEAN_TY[ty]})" for a, ty in cfg.get("self_attrs", [])] + [f"({p} : {LEAN_TY[ty]})" for p, ty in cfg["params"]]
-        return ("/- GENERATED by harness/extract/np2lean.py from src/thefittest/" + cfg["file"] + f" ({cfg['cls']}.{cfg['func']}) — do not edit -/\n"
+        return ("/- GENERATED by harness/extract/np2lean.py from src/thefittest/" + cfg["file"] + f" ({cls_txt}{cfg['func']}) — do not edit -/\n"
                 + "\n".join(sorted(set(imports))) + "\nnamespace TFV.Generated.Src\nopen TFV\n\n"
                 + f"def {cfg['name']} " + " ".join(params) + f" : Option ({LEAN_TY[cfg['ret']]}) := do\n" + "\n".join(self.lines) + "\n\nend TFV.Generated.Src\n")
 
